@@ -87,3 +87,7 @@ def check(ctx):
     if a1 or a2:
         raise vlib.Infra("binding self-test failed: corrupted sFlow trace accepted")
     ctx.binding_selftests += [{"corrupt": "record field replaced", "rejected": True}, {"corrupt": "SamplingRate bit flipped", "rejected": True}]
+    # decoders side by side, as the collector runs them (one per worker, many workers): the real workers 4 at a time under
+    # the race detector - what each publishes is its own datagram's message
+    from props import c12
+    c12.parallel_stage(ctx, thorough, protos=["sflow"])
